@@ -105,6 +105,35 @@ def run(ctx):
         for i, sc in enumerate(scs):
             o = treerun.run(base, sc)
             runs.append((i, sc, o))
+        # faults and schedules the mirror must survive: a source directory that cannot be listed (EACCES as for a non-root
+        # user, ENOENT when it vanished) must make the run fail, not be skipped; a walker much slower than the workers
+        extra = []
+        ok_plain = {id(sc) for _, sc, o in runs if o.res.cls == '0'}
+        for i, sc in enumerate(scs[6:]):
+            if id(sc) not in ok_plain:
+                continue            # only scenarios whose plain run succeeds
+            dirs = [e['p'] for e in sc.entries if e['k'] == 'd' and any(e['p'].startswith(sr + b'/') for sr in sc.meta['srcs'])]
+            if not dirs or len(extra) >= (18 if ctx.quick else 150) or any(isinstance(x, bytes) and not isutf(x) for x in treerun.argv('/x', sc)):
+                continue
+            d = rng.choice(dirs)
+            if len(extra) % 3 == 2:
+                plan, why = ['stall mkdir 600000'], 'slow-walker'
+            else:
+                en = rng.choice([13, 2])
+                tail = d[len(b'/W/'):].decode('latin-1')
+                if any(ch.isspace() for ch in tail) or not tail.isascii():
+                    continue
+                plan, why = [f'fail openat {tail} 1 {en}'], 'unlistable-directory'
+            if why == 'slow-walker':
+                sc.driver = ['parfile', 'parblock'][(len(extra) // 3) % 2]      # alternate, independently of the scenario's own driver
+            o = treerun.run(base, sc, plan=plan, trace=True, timeout=90)
+            fired = why == 'slow-walker' or any(e.get('inj') for e in o.res.trace)
+            ctx.count(f'faulted.{why}.' + o.res.cls); ctx.case(('c02-fault', i, tuple(plan)), fired)
+            extra.append(1)
+            if o.res.cls == '0' and fired:
+                msg, known = oracle(sc, o)
+                if msg and not (known and ctx.open_finding(known)):
+                    ctx.violation(f'case-{i}-{why}.json', dict(argv=[repr(x) for x in o.argv], plan=plan, oracle=msg), f'C02: with {plan}: exit 0 but {msg}')
         ans = core.ask(core.MODEL, [o.request for _, _, o in runs])
     for (i, sc, o), a in zip(runs, ans):
         tag = getattr(sc, 'tag', 'gen')
